@@ -238,3 +238,10 @@ func VerifCursor(n, cursor int) (int, int) {
 	r := c.Cursor()
 	return r, c.cursor
 }
+
+// VerifNow returns the clock of the last housekeeping tick (t.now).
+func (t *Transport) VerifNow() time.Time {
+	t.connsMu.Lock()
+	defer t.connsMu.Unlock()
+	return t.now
+}
